@@ -1,6 +1,91 @@
-//! C01 — not implemented yet.
+//! C01 — sequential and parallel execution return the same result.
+//!
+//! `PIPE mode=<seq|par:N> canon=<seq|deep> src <rows> ; steps…` — real side: the program is built with
+//! the public builders on a fresh `Pipeline` and collected with `collect_seq` / `collect_par(None, Some(N))`.
+//! Oracle (independent of the model): canonical(par) == canonical(seq); exact sequence for barrier-free
+//! programs; every run terminates.
+
 use crate::ctx::Ctx;
+use crate::pipe::*;
+
+fn modes_for(cx: &mut Ctx, len: usize, all: bool) -> Vec<Mode> {
+    let mut m = vec![Mode::Seq];
+    let choices = partition_choices(len);
+    if all {
+        m.extend(choices.into_iter().map(Mode::Par));
+    } else {
+        let a = *cx.rng.pick(&choices);
+        let b = *cx.rng.pick(&choices);
+        m.push(Mode::Par(a));
+        if b != a { m.push(Mode::Par(b)); }
+    }
+    m
+}
+
+pub fn corpus() -> Vec<Prog> {
+    let kv = |k: i64, v: i64| V::pair(V::I(k), V::I(v));
+    vec![
+        // fan-out 0 / 1 used to hang in parallel mode
+        Prog { shape: Shape::T, src: (1..=4).map(V::I).collect(), steps: vec![Step::CombineGlobally(Comb::Sum, Some(0))] },
+        Prog { shape: Shape::T, src: (1..=5).map(V::I).collect(), steps: vec![Step::CombineGlobally(Comb::Count, Some(1))] },
+        Prog { shape: Shape::T, src: (1..=9).map(V::I).collect(), steps: vec![Step::CombineGloballyLifted(Comb::MaxT, Some(2))] },
+        // lifted combine on grouped input with a repeated key: seq used to overwrite, par to merge
+        Prog { shape: Shape::KG, src: vec![V::pair(V::I(0), V::L(vec![V::I(1)])), V::pair(V::I(0), V::L(vec![V::I(2)]))], steps: vec![Step::CombineValuesLifted(Comb::Sum)] },
+        Prog { shape: Shape::KV, src: vec![kv(1, 1), kv(1, 2), kv(2, 5)], steps: vec![Step::Gbk, Step::CombineValuesLifted(Comb::Sum)] },
+        Prog { shape: Shape::KV, src: vec![kv(1, 1), kv(1, 2), kv(2, 5)], steps: vec![Step::MapValues(Fn_::Add(1)), Step::FilterValues(Pred::Even)] },
+        Prog { shape: Shape::KV, src: vec![kv(1, 1), kv(1, 2), kv(2, 5)], steps: vec![Step::Join(JoinKind::Left, Box::new(Prog { shape: Shape::KV, src: vec![kv(1, 7), kv(3, 9)], steps: vec![Step::MapValues(Fn_::Neg)] })), Step::CombineValues(Comb::Sum)] },
+    ]
+}
 
 pub fn run(cx: &mut Ctx) {
-    cx.notes.push("C01: harness not implemented".to_string());
+    let o = CheckOpts { par_vs_seq: true, vs_reference: false };
+    for p in corpus() {
+        let modes = modes_for(cx, p.src.len(), true);
+        check_prog(cx, &p, &modes, &o);
+    }
+    // small-scope exhaustive: all keyed inputs of length <= 4 over 2 keys x all partition counts 1..6
+    //   x {gbk, combine(sum), combine lifted after gbk, global(sum, fan-out none/2/3)}
+    let maxlen = cx.budget(3, 4);
+    let mut inputs: Vec<Vec<V>> = vec![vec![]];
+    let mut frontier: Vec<Vec<V>> = vec![vec![]];
+    for _ in 0..maxlen {
+        let mut next = vec![];
+        for s in &frontier {
+            for k in 0..2i64 {
+                let mut t = s.clone();
+                t.push(V::pair(V::I(k), V::I(t.len() as i64 + 1)));
+                next.push(t);
+            }
+        }
+        inputs.extend(next.iter().cloned());
+        frontier = next;
+    }
+    let tails: Vec<Vec<Step>> = vec![
+        vec![Step::Gbk],
+        vec![Step::CombineValues(Comb::Sum)],
+        vec![Step::Gbk, Step::CombineValuesLifted(Comb::Count)],
+        vec![Step::Values, Step::CombineGlobally(Comb::Sum, None)],
+        vec![Step::Values, Step::CombineGlobally(Comb::Sum, Some(2))],
+        vec![Step::Values, Step::CombineGlobally(Comb::Topk(2), Some(3))],
+    ];
+    let mut n_ex = 0;
+    for src in &inputs {
+        for t in &tails {
+            let p = Prog { shape: Shape::KV, src: src.clone(), steps: t.clone() };
+            let modes: Vec<Mode> = std::iter::once(Mode::Seq).chain((1..=6).map(Mode::Par)).collect();
+            check_prog(cx, &p, &modes, &o);
+            n_ex += 1;
+        }
+    }
+    cx.exhaustive_blocks.push(format!("all keyed inputs of length <= {maxlen} over 2 keys x 6 barrier tails x seq + par 1..6 ({n_ex} programs)"));
+
+    // random programs: every transform family, joins with transformed sides, global combines with any fan-out
+    let opts = GenOpts { max_steps: 10, max_rows: cx.budget(24, 120), barriers: true, joins: true, globals: true, nonlocal_batches: false };
+    let rounds = cx.budget(350, 6000);
+    for i in 0..rounds {
+        let p = gen_prog(&mut cx.rng, &opts);
+        let all = i % 10 == 0;
+        let modes = modes_for(cx, p.src.len(), all);
+        check_prog(cx, &p, &modes, &o);
+    }
 }
